@@ -1,5 +1,5 @@
 CONSTANTS
-  Fams = {"options", "ctype", "cond", "auth", "cookie", "url", "range", "date", "body"}
+  Fams = {"options", "ctype", "cond", "auth", "cookie", "url", "range", "date", "body", "accept"}
   FullLen = 2
   MaxLen = 3
   CoreToks = 9
